@@ -8,6 +8,8 @@ pub mod richtext;
 pub mod patches;
 #[cfg(feature = "e_crdtx")]
 pub mod crdtx;
+#[cfg(feature = "e_store")]
+pub mod store;
 #[cfg(feature = "e_anon")]
 pub mod anon;
 #[cfg(feature = "e_hexane")]
@@ -81,6 +83,8 @@ pub fn generate(engine: &str, r: &mut Rng, opts: &BTreeMap<String, String>, sess
         "patches" => patches::generate(r, opts, sess, out),
         #[cfg(feature = "e_crdtx")]
         "crdtx" => crdtx::generate(r, opts, sess, out),
+        #[cfg(feature = "e_store")]
+        "store" => store::generate(r, opts, sess, out),
         #[cfg(feature = "e_sync")]
         "sync" => sync::generate(r, opts, sess, out),
         _ => panic!("unknown engine {}", engine),
